@@ -1,5 +1,5 @@
 From Coq Require Import Extraction ExtrOcamlBasic NArith.
-From LT Require Import VssModel DkgModel.
+From LT Require Import VssModel DkgModel DkgRoundModel.
 Extraction "model.ml" poly_eval commits fcommits rhs_prod share_ok recv_complaint complains complaints_from disqualified
-  resolve vss_receive deal_share deal_resolution lagrange0 recon_parties interpolate dkg_x dkg_y dkg_v refresh_share
+  resolve vss_receive deal_share deal_resolution lagrange0 recon_parties interpolate dkg_x dkg_y dkg_v refresh_share dkg_view dkg_own_stream qual_glob dkg_answers
   N.add. (* N.add: drvcore.ml needs the type n although this model does not use it *)
